@@ -16,7 +16,7 @@ HARNESS="${VERIF_HARNESS:-$(cd "$(dirname "$0")/../harness" && pwd)}"
 CRATE="$HARNESS/vmiri-lexer"
 case "$TIER" in
   thorough) TOTAL=3200 ;;
-  *) TOTAL=320 ;;
+  *) TOTAL=240 ;;
 esac
 JOBS="${VERIF_MIRI_JOBS:-8}"          # shards per borrow model (two models run at the same time)
 export CARGO_TARGET_DIR="$CRATE/target"
